@@ -1,10 +1,12 @@
-/* C06: P7 header loop (termination + rejection of truncated headers) */
+/* C06: P7 header loop (termination, rejection of truncated headers, acceptance and meaning of well-formed headers) */
 #include "contracts/C06_p7.h"
 int verif_exc; size_t g_rem;
+uint64_t g_hw, g_hh, g_hmax, g_hdepth; uint8_t g_htup, g_hdepth_seen, g_hwell, g_hend; int g_hfirst;
 #include "x_p7_header.c"
 void h_p7_header(void) {
   size_t in_rem; g_rem = in_rem;
   C6FILE* f; size_t *w, *h, *d; uint64_t* mv; C6Format* fmt;
+  uint64_t in_w0, in_h0, in_m0; g_hw = in_w0; g_hh = in_h0; g_hmax = in_m0; g_htup = 0; g_hdepth_seen = 0; g_hwell = 1; g_hend = 0; g_hfirst = 0;
   Image_load_p7_header(f, w, h, mv, d, fmt);
   VERIF_REACH();
 }
